@@ -298,6 +298,10 @@ def run_signal(case):
         elif meth == "Spline":
             tg, cg = ocp.sample(vb, grid="gist")
             tg = num(tg).reshape(-1); cg = np.atleast_2d(num(cg)); cg = cg.reshape(width, -1, order="F") if cg.shape[0] != width else cg
+            tg2, cg2 = ocp.sample(vb + 0.75, grid="gist")
+            tg2 = num(tg2).reshape(-1); cg2 = np.atleast_2d(num(cg2)); cg2 = cg2.reshape(width, -1, order="F") if cg2.shape[0] != width else cg2
+            if not NL.close(tg2, tg, 1e-10) or cg2.shape != cg.shape or not NL.close(cg2, cg + 0.75, 1e-9):
+                vios.append(dict(sig="value:gist:affine", tags=tags, detail="gist coefficients of (v + 0.75) are %s; those of the B-spline variable v are %s" % (np.round(cg2, 5).tolist(), np.round(cg, 5).tolist())))
             tcl = np.concatenate([[xi[0]] * (d + 1), xi[1:-1], [xi[-1]] * (d + 1)]) if d > 0 else None
             wantG = (xi[1:] + xi[:-1]) / 2 if d == 0 else np.array([np.mean(tcl[i + 1:i + d + 1]) for i in range(N + d)])
             if cg.shape[1] != N + d or not NL.close(tg, wantG, 1e-10):
@@ -426,6 +430,32 @@ def run_spline(case):
                         bad = True; break
                 if bad: break
             if bad: break
+        # grid='gist': the coefficients of each state / control (and of an affine expression of it) sit at the Greville
+        # points of its own degree and reproduce the refined samples through an independent Cox-de Boor evaluation
+        for xs, u in (ch if not vios else []):
+            L = len(xs)
+            for j, sym in enumerate(list(xs) + [u]):
+                d = L - j
+                tg, cg = ocp.sample(sym, grid="gist")
+                tg = num(tg).reshape(-1); cg = np.atleast_2d(num(cg)); cg = cg.reshape(nn, -1, order="F") if cg.shape[0] != nn else cg
+                tcl = clamped(tc, d)
+                wantG = (tc[1:] + tc[:-1]) / 2 if d == 0 else np.array([np.mean(tcl[i + 1:i + d + 1]) for i in range(N + d)])
+                evals += len(tg)
+                if cg.shape[1] != N + d or not NL.close(tg, wantG, 1e-10):
+                    vios.append(dict(sig="value:gist:greville", tags=tags + ["degree=%d" % d], detail="gist times %s vs Greville points %s (%d coefficients, expected %d)" % (np.round(tg, 5), np.round(wantG, 5), cg.shape[1], N + d)))
+                    break
+                tg2, cg2 = ocp.sample(sym + 0.75, grid="gist")
+                tg2 = num(tg2).reshape(-1); cg2 = np.atleast_2d(num(cg2)); cg2 = cg2.reshape(nn, -1, order="F") if cg2.shape[0] != nn else cg2
+                if not NL.close(tg2, tg, 1e-10) or cg2.shape != cg.shape or not NL.close(cg2, cg + 0.75, 1e-9):
+                    vios.append(dict(sig="value:gist:affine", tags=tags + ["degree=%d" % d], detail="gist coefficients of (x + 0.75) are %s; those of x are %s" % (np.round(cg2, 5).tolist(), np.round(cg, 5).tolist())))
+                    break
+                spv = scipy_spline(tc, d, cg)
+                ts, vs = ocp.sample(sym, grid="control", refine=3)
+                ts = num(ts).reshape(-1); vs = np.atleast_2d(num(vs)); vs = vs.reshape(nn, -1, order="F") if vs.shape[0] != nn else vs
+                mask = np.array([d > 0 or np.min(np.abs(tc - tv)) > 1e-12 for tv in ts])
+                if not NL.close(vs[:, mask], spv(ts)[:, mask], 1e-8):
+                    vios.append(dict(sig="value:gist:reproduce", tags=tags + ["degree=%d" % d], detail="refined samples of a chain member are not the Cox-de Boor evaluation of its gist coefficients"))
+                    break
         # path constraints at every (refined) grid point
         for r in (1, 2, 3):
             ocp2, ch2 = spline_program("Spline", chains, N, g, vec, refine_con=r)
